@@ -397,8 +397,8 @@ def gen_cases(chk, rng):
         lines.append(f"gac {ty} {pv} {rng.below(2)} {rng.choice(['ga', 'de'])} {tok(v)}")
     for i in range(500 if quick else 5000):
         ty, pv = pen_case()
-        kind = KINDS[i % 4]
-        prog = g.prog()
+        kind = ["mae", "count"][i % 2]          # the harness instantiates the typed penalties for these two
+        prog = rng.choice(PROGS1)               # … and for individuals
         fast = rng.chance(0.3)
         n = rng.between(100, 130) if fast else g.nrows(False)
         rows = g.rows(prog, n, rng.chance(0.1))
@@ -533,22 +533,6 @@ def pen_oracle(ty, v, first, name):
              {"evaluator": "constrained", "kind": "prepend", "ptype": ty})]
 
 
-def test_rnd(dist):
-    """`static engine_t e; e.seed(dist); e()` of xoshiro256** seeded through splitmix64, as a double"""
-    M = (1 << 64) - 1
-    x = dist if dist else 0xcced1fc561884152
-    st = []
-    for _ in range(4):
-        x = (x + 0x9E3779B97F4A7C15) & M
-        z = x
-        z = ((z ^ (z >> 30)) * 0xBF58476D1CE4E5B9) & M
-        z = ((z ^ (z >> 27)) * 0x94D049BB133111EB) & M
-        st.append(z ^ (z >> 31))
-    r = (st[1] * 5) & M
-    r = ((r << 7) | (r >> 57)) & M
-    return float((r * 9) & M)
-
-
 def oracle(line, cpp, stats=None):
     """Judge one harness answer against the PROPERTY (no Lean involved).
     Returns a list of (what, tags)."""
@@ -582,20 +566,30 @@ def oracle(line, cpp, stats=None):
                         {"evaluator": "ga", "kind": "nonfinite"}))
         return bad
     if t[0] == "tev":
+        # documented: `fixed` the same fitness for everybody; `distinct` a time-invariant fitness per individual,
+        # different individuals different values; `random` a time-invariant fitness per individual.  (WHICH
+        # numbers is not documented: that is compared with the model only.)
         kind, k = t[1], int(t[3])
         ids = t[4:4 + k]
         got = c[2:2 + k]
-        seen = []
-        want = []
-        for x in ids:
-            if x not in seen:
-                seen.append(x)
-            d = seen.index(x)
-            want.append(tok(0.0) if kind == "fixed" else tok(float(d)) if kind == "distinct" else tok(test_rnd(d)))
-        if got != want:
-            bad.append((f"test_evaluator({kind}): history {ids} gave {[untok(g) if g[0] != 's' else g for g in got]}, "
-                        f"documented (time-invariant, {kind}) {[untok(w) for w in want]}",
-                        {"evaluator": "test", "kind": kind}))
+        why = None
+        if len(got) != k or any(g.startswith("size=") for g in got):
+            why = "a fitness that does not have one component"
+        elif any(g == "nan" for g in got):
+            why = "a NaN fitness"
+        elif kind == "fixed" and len(set(got)) > 1:
+            why = "different fitnesses from a `fixed` evaluator"
+        else:
+            first = {}
+            for x, g in zip(ids, got):
+                if first.setdefault(x, g) != g:
+                    why = f"two different fitnesses for individual {x} (not time-invariant)"
+                    break
+            if why is None and kind == "distinct" and len(set(first.values())) != len(first):
+                why = "the same fitness for two different individuals of a `distinct` evaluator"
+        if why:
+            bad.append((f"test_evaluator({kind}){'.fast' if t[2] == '1' else ''}: history {ids} gave "
+                        f"{[untok(g) if g[0] != 's' else g for g in got]}: {why}", {"evaluator": "test", "kind": kind}))
         return bad
     if t[0] in ("reg", "con", "conp"):
         at = {"reg": 1, "con": 2, "conp": 3}[t[0]]
@@ -925,9 +919,10 @@ def run(chk, replay=None):
         # ---- model vs code ----
         if lean is not None and lean[i] is not None:
             want = cpp_canon(line, c)
-            mod, _, genans = lean[i].partition(" ;; ")
+            mod, sep, genans = lean[i].partition(" ;; ")
             mod = mod.strip()
-            genans = mod if genans.strip() in ("", "=") else genans.strip()
+            # lines that do not involve the functors carry no generated part
+            genans = want.strip() if not sep else (mod if genans.strip() == "=" else genans.strip())
             if mod != want.strip():
                 ndis += 1
                 if ndis <= 3:
